@@ -171,7 +171,11 @@ def parse_date(date):
             # fields the text leaves out come from the first day of the 1900 system, not from
             # today (dateutil's default): "March 2020" is 1 March 2020 on every day of the month,
             # and a bare time of day is that time on day 0
-            return to_date(date, default=date_1900)
+            # ... and a zone designator or abbreviation is left out of account (ignoretz): with
+            # it the result was an aware date-time or not depending on the process's own time
+            # zone, every unknown abbreviation raised a warning, and aware date-times cannot
+            # be turned into serials at all
+            return to_date(date, default=date_1900, ignoretz=True)
         except ValueError:
             pass
     return error.VALUE
